@@ -74,13 +74,21 @@ def _regen(bdir, gen, tool, src):
     srcp = os.path.join(REPO, src)
     if os.path.exists(out) and os.path.getmtime(out) >= os.path.getmtime(srcp):
         return out
+    cwd = None
     if tool == "bison":
         cmd = ["bison", "-d", "-Wno-yacc", "-Wno-other", "-o", out, srcp]
     else:
-        cmd = ["flex", "--outfile=" + out, srcp]   # flex takes -oFILE / --outfile=FILE, not "-o FILE"
-    r = subprocess.run(cmd, stdout=subprocess.PIPE, stderr=subprocess.STDOUT, text=True)
+        # the .l files carry `%option outfile="lex.yy.c"`, which overrides -o/--outfile: run flex in a
+        # private directory and rename (what automake's ylwrap does)
+        import tempfile
+        cwd = tempfile.mkdtemp(dir=gdir)
+        cmd = ["flex", srcp]
+    r = subprocess.run(cmd, stdout=subprocess.PIPE, stderr=subprocess.STDOUT, text=True, cwd=cwd)
     if r.returncode != 0:
         raise BuildError("generator failed: %s\n%s" % (" ".join(cmd), r.stdout[-3000:]))
+    if cwd is not None:
+        os.replace(os.path.join(cwd, "lex.yy.c"), out)
+        os.rmdir(cwd)
     return out
 
 
